@@ -255,6 +255,17 @@ fn case(out: &mut Out, class: &str, ts: u32, reference: [f64; 2], msg: &[u8], tr
                     out.fail("non-finite", &line, &format!("{name} = {v}"));
                 }
             }
+            // what jet1090 / the Python binding hand on is the JSON of the record: it must serialise, and show the
+            // address as the six hexadecimal digits that Display shows
+            match guarded(|| serde_json::to_value(f)) {
+                Some(Ok(v)) => {
+                    if v.get("icao24").and_then(|x| x.as_str()) != Some(format!("{}", f.icao24).as_str()) {
+                        out.fail("json-address", &line, &format!("icao24 in JSON: {:?}, displayed: {}", v.get("icao24"), f.icao24));
+                    }
+                }
+                Some(Err(e)) => out.fail("json-error", &line, &format!("the decoded record does not serialise: {e}")),
+                None => out.fail("panic", &line, "serialising the decoded record panicked"),
+            }
             if f.track.is_finite() && !(f.track >= 0.0 && f.track < 360.0) {
                 out.fail("track-range", &line, &format!("track = {:?} is outside [0, 360)", f.track));
             }
